@@ -648,6 +648,30 @@ macro_rules! strict_ops {
                         let (o, u) = hooks::kahn(&d_icf(&a[0])?);
                         ok(e_pair(e_arr(&o), e_arr(&u)))
                     }
+                    "g_dense_relative_indegree" => ok(e_ff(&hooks::dense_relative_indegree(&d_icf(&a[0])?, &d_ff(&a[1])?))),
+                    "g_sparse_relative_indegree" => {
+                        let (i, c) = hooks::sparse_relative_indegree(&d_icf(&a[0])?, &d_ff(&a[1])?);
+                        ok(e_pair(e_ff(&i), e_ff(&c)))
+                    }
+                    "g_filter" => ok(e_arr(&hooks::filter::<K>(&d_arr(&a[0])?, &d_arr(&a[1])?))),
+                    "f_map_half_spider" => ok(e_ff(&hooks::map_half_spider(&d_ics(&a[0])?, &d_ff(&a[1])?))),
+                    "f_to_operations" => ok(e_ops(&hooks::to_operations(&d_ohg(&a[0])?))),
+                    "f_spider_map_arrow" => ok(e_ohg(&hooks::spider_map_arrow(
+                        &d_ohg(&a[0])?,
+                        d_ics(&a[1])?,
+                        d_ohg(&a[2])?,
+                    ))),
+                    "f_interleave_blocks" => {
+                        let r: OHG = hooks::interleave_blocks(&d_ics(&a[0])?, &d_ics(&a[1])?);
+                        ok(e_ohg(&r))
+                    }
+                    "f_partial_dagger" => ok(e_ohg(&hooks::partial_dagger(
+                        &d_ohg(&a[0])?,
+                        &d_ics(&a[1])?,
+                        &d_ics(&a[2])?,
+                        &d_ics(&a[3])?,
+                        &d_ics(&a[4])?,
+                    ))),
                     "layer" => {
                         let (o, u) = layer(&d_ohg(&a[0])?);
                         ok(e_pair(e_ff(&o), e_arr(&u)))
